@@ -529,6 +529,7 @@ size_t ZSTD_seekable_decompress(ZSTD_seekable* zs, void* dst, size_t len, unsign
             prevInPos = zs->in.pos;
             toRead = ZSTD_decompressStream(zs->dstream, &outTmp, &zs->in);
             if (ZSTD_isError(toRead)) {
+                zs->curFrame = (U32) -1;   /* the decoder is in an error state: the next call seeks and resets it */
                 return toRead;
             }
 
